@@ -18,8 +18,8 @@ LEVEL={
         "single-byte delimiters; valid UTF-8; bounds in evidence"),
  "C09":("two-run non-interference: the same symbolic bytes delivered one-shot and under every chunk schedule in the bound give the same results (EDI scanner with a 2-byte buffer and CR/LF stripping readers; fixedlength2 reader with a 16-byte bufio buffer and cut sources)",
         "stdlib decoders (encoding/csv,json,xml, x/text) are only covered where harnesses execute them as real code; BOM/encoding layer not covered here"),
- "C12":("inductive steps over a symbolic heap: all five links of N nodes are solver-chosen, constrained only by the wfForest invariant; one AddChild / RemoveAndReleaseTree / CreateNode with symbolic arguments must re-establish the invariant, keep child order, blank and pool exactly the removed subtree and issue fresh IDs; reader Release/Read protocols are monitored for double release and use-after-release",
-        "sync.Pool modelled as LIFO bag; atomic counter sequential (no thread model: racing acquisitions are outside)"),
+ "C12":("inductive steps over a symbolic heap: all five links of N nodes are solver-chosen, constrained only by the wfForest invariant; one AddChild / RemoveAndReleaseTree / CreateNode with symbolic arguments must re-establish the invariant, keep child order, blank and pool exactly the removed subtree and issue fresh IDs; reader Release/Read protocols are monitored for double release and use-after-release; acquisitions racing on goroutines: bounded thread model (every interleaving of pool and atomic operations of 2 threads within a preemption bound, happens-before race monitor) with IDs, ownership and blankness asserted after the join",
+        "sync.Pool modelled as a bag (LIFO, or any element in mode 2); threads: 2, preemptions ≤ 2 (quick) / 3 (thorough), sequential consistency; more threads or preemptions are outside"),
  "C16":("every built-in reader claimed is run over symbolic inputs with the source failing persistently at every byte position and compared with its fault-free twin: prefix of results equal (last exempt), then a non-continuable non-EOF error within the read bound",
         "fault model: once failing, always failing with the same error; a reader that legitimately stops before the fault matters may end as the fault-free run does"),
 }
@@ -56,8 +56,8 @@ LEVEL.update({
         "inputs ≤ bound bytes; undefined windows-1252 bytes excluded; that equal bytes give equal results downstream is each format reader's determinism (C15)"),
 })
 LEVEL.update({
- "C14":("a lockset-style sufficient condition decided on every explored path of five reader/transform harnesses: after validation the declaration objects (EDI, csv2, fixedlength2 declarations, transform declaration trees) are frozen, and any store or map update into an object reachable from them while reading or transforming is a violation — no shared writes means no data race on schema state and schedule-independent results, given the thread-safety of sync.Pool/atomic/LRU",
-        "interleavings themselves are not explored (no thread or memory model); racing acquisitions of the ID counter and pool internals are outside"),
+ "C14":("bounded thread model on the real code: two goroutines (transform over a shared validated declaration tree with cold xpath cache; javascript custom functions over the shared VM pool and program cache; whole ingester runs over one schema through the shared node pool; racing node acquisitions) under every sequentially consistent interleaving of their synchronisation operations (sync/atomic, Mutex/RWMutex incl. the real golang-lru code, sync.Pool, sync.Once) within a preemption bound, with a vector-clock happens-before race monitor over every load/store/map operation and each thread's results compared with its serial run; plus the freeze condition on five reader/transform harnesses (no store into validated declarations while reading or transforming)",
+        "2 threads; preemptions ≤ 1..2 (quick) / 2..4 (thorough); sequential consistency (weak-memory effects are exactly the data races the monitor reports); accesses inside engine-side models of byte/string leaf functions are not monitored; goja internals modelled; GOMAXPROCS and the real scheduler appear only in the native -race replay"),
 })
 LEVEL.update({
  "C15":("two-run non-interference over hidden state decided inside single symbolic paths: the same transform before and after unrelated activity (pool contents, ID counter advance, all map-iteration permutations) yields byte-identical outputs and checksums; checksum injectivity on the record shapes readers produce, with the XML attribute/mixed-content collision recorded as finding F13",
